@@ -547,6 +547,16 @@ static Result run_legacy(const json &c) {
     sel.push_back(a);
   }
   vt::Histogram h(op);
+  if (c.value("prior", false)) {
+    // history: the same object has already processed another (benign) data set; the histogram of a data set must
+    // not depend on what the object held before
+    r.cls("object-reused");
+    vt::DataCollection<double>::selection psel;
+    auto *pa = dc.CreateArray("prior");
+    for (double v : {0.5, 1.0, 2.0, 2.5, 2.5}) pa->push_back(v);
+    psel.push_back(pa);
+    h.ProcessData(&psel);
+  }
   h.ProcessData(&sel);
 
   if (long(h.getPdf().size()) != n) {
@@ -665,7 +675,7 @@ static json gen_legacy() {
     arrays.push_back(arr);
   }
   json c{{"n", n},       {"auto", autor},          {"periodic", rbool(25)}, {"normalize", rbool(50)},
-         {"scale", scale}, {"arrays", arrays}};
+         {"scale", scale}, {"arrays", arrays}, {"prior", rbool(30)}};
   if (!autor) {
     double mn = rfrac(-80, 80, 8), len = rfrac(1, 160, 8);
     if (scale == "bond") mn = rfrac(0, 40, 8);
